@@ -76,7 +76,7 @@ func (r *Runner) Init() {
 	fi := Exec(r.srv, Op{Proc: "fsinfo"}, root, nil)
 	pc := Exec(r.srv, Op{Proc: "pathconf"}, root, nil)
 	st := r.srv.VerifState()
-	fmt.Fprintf(r.w, "I %d %d %d %d %d %d\n", r.sz, b2i(r.srv.Unstable), pc.Namemax, fi.Maxfs, fi.Wtmax, uint64(st.Super.NInode()))
+	fmt.Fprintf(r.w, "I %d %d %d %d %d %d %d\n", r.sz, b2i(r.srv.Unstable), pc.Namemax, fi.Maxfs, fi.Wtmax, uint64(st.Super.NInode()), fi.Rtmax)
 	r.checkpoint(true)
 }
 
